@@ -116,6 +116,18 @@ pub open spec fn canonical_names(t: STree, d: nat) -> bool decreases t {
             else { x == xs(d + 1) && canonical_names(*c, d + 1) },
     }
 }
+// frame of the evaluator: the domains of the variables that are free at this point belong to the enclosing quantifiers (depth names)
+pub open spec fn fvd_le(m: Map<String, Option<String>>, d: nat) -> bool { forall|k: String| #[trigger] m.contains_key(k) ==> exists|i: nat| 1 <= i <= d && k@ == xs(i) }
+pub open spec fn fvd_ok(m: Map<String, Option<String>>, t: STree) -> bool { exists|d: nat| canonical_names(t, d) && fvd_le(m, d) }
+pub proof fn lemma_fvd_fresh(m: Map<String, Option<String>>, d: nat, v: String)
+    requires fvd_le(m, d), v@ == xs(d + 1)
+    ensures !m.contains_key(v)
+{
+    if m.contains_key(v) {
+        let i = choose|i: nat| 1 <= i <= d && v@ == xs(i);
+        assert(xs(i).len() == i && xs(d + 1).len() == d + 1);
+    }
+}
 pub open spec fn tree_pre(t: STree) -> bool { names_ok(t) && exists|d: nat| canonical_names(t, d) }
 pub open spec fn small(m: IMap<Seq<char>, Seq<char>>) -> bool { forall|x: Seq<char>, y: Seq<char>| m.contains_key(x) && m.contains_key(y) ==> x == y }
 pub open spec fn is_wild_tree(t: STree) -> bool { t matches STree::Term(SAtom::Wild(_)) }
